@@ -496,6 +496,13 @@ struct TemplateCore {
                                 break;
                             }
 
+                            case TagType::Loop: {
+                                // A '}' ended a super variable or an inline if over an open loop:
+                                // the loop is abandoned, variables can no longer refer to it.
+                                loop_tag = tag_bit->GetLoopTag().Parent;
+                                break;
+                            }
+
                             default: {
                             }
                         }
